@@ -93,6 +93,17 @@ func TarDirectory(dir string, w io.Writer) error {
 // It creates the destination directory if it doesn't exist.
 // For security, it validates paths to prevent directory traversal attacks.
 func UntarDirectory(r io.Reader, destDir string) error {
+	return untar(r, destDir, true)
+}
+
+// UntarStream extracts an uncompressed tar stream to a destination directory
+// with the same path and link validation as UntarDirectory.
+func UntarStream(r io.Reader, destDir string) error {
+	return untar(r, destDir, false)
+}
+
+// untar extracts a tar archive (gzip-compressed if gzipped is true).
+func untar(r io.Reader, destDir string, gzipped bool) error {
 	// Clean destination directory
 	destDir = filepath.Clean(destDir)
 
@@ -111,14 +122,17 @@ func UntarDirectory(r io.Reader, destDir string) error {
 	}
 
 	// Create gzip reader
-	gzr, err := gzip.NewReader(r)
-	if err != nil {
-		return fmt.Errorf("failed to create gzip reader: %w", err)
+	if gzipped {
+		gzr, err := gzip.NewReader(r)
+		if err != nil {
+			return fmt.Errorf("failed to create gzip reader: %w", err)
+		}
+		defer gzr.Close()
+		r = gzr
 	}
-	defer gzr.Close()
 
 	// Create tar reader
-	tr := tar.NewReader(gzr)
+	tr := tar.NewReader(r)
 
 	for {
 		header, err := tr.Next()
